@@ -521,6 +521,11 @@ def run(tier="quick", seed=0, only=None):
         G = 1
         for g in grid:
             G *= len(g)
+        if bool((idx < 0).any() or (idx >= G).any()):
+            # the library handed out positions outside the grid: record it against the code, do not crash the harness on scatter
+            rec(f"interpolation/{len(grid)}d/sizes{[len(g) for g in grid]}/indices_in_range", False,
+                f"Interpolation.interpolate returned indices in [{int(idx.min())}, {int(idx.max())}] for a grid of {G} points", {"grids": [tl(g) for g in grid]})
+            idx = idx.clamp(0, G - 1)
         W = torch.zeros(x.size(0), G, dtype=val.dtype)
         W.scatter_add_(1, idx, val)
         return W, idx
@@ -957,6 +962,25 @@ def run(tier="quick", seed=0, only=None):
                     cmp(f"{tag}/covariance", cov, ec, inp, tol_for(chol, base=1e-5 if 2 * nfeat >= n else 1e-6))
                 guarded(tag, pred, inp)
 
+    if want("interpolation"):
+        # a data-determined grid that is rebuilt (inputs outside the current tight bounds) in EVALUATION mode: the kernel must be W K_UU W^T on
+        # the NEW grid (the eval-mode cache of K_UU belongs to the old grid and has to be dropped when the grid changes)
+        for toep in (True, False):
+            def regrid(toep=toep):
+                with torch.no_grad(), S.use_toeplitz(toep):
+                    base = gpytorch.kernels.RBFKernel().double()
+                    base.lengthscale = 0.4
+                    k = gpytorch.kernels.GridInterpolationKernel(base, grid_size=14, num_dims=1).double().eval()
+                    xa = torch.linspace(0.0, 1.0, 7, dtype=D).unsqueeze(-1)
+                    xb = torch.linspace(-2.0, 3.0, 9, dtype=D).unsqueeze(-1)
+                    k(xa).to_dense()
+                    got = k(xb).to_dense()
+                    g = k.grid[0].to(D)
+                    W = my_w1d(g, xb.squeeze(-1))
+                    Kuu = torch.exp(-0.5 * (g.unsqueeze(-1) - g.unsqueeze(0)) ** 2 / 0.4 ** 2)
+                    cmp(f"grid_interpolation_kernel/data_grid/regrid_in_eval_mode/toeplitz={int(toep)}/kernel_is_W_Kuu_Wt_on_the_new_grid", got, W @ Kuu @ W.T,
+                        {"first_inputs": tl(xa), "second_inputs": tl(xb), "grid_after": tl(g)}, tol=1e-5)
+            guarded(f"grid_interpolation_kernel/data_grid/regrid_in_eval_mode/toeplitz={int(toep)}", regrid)
     return {"name": "C09 structured kernels / prediction strategies vs dense meaning (float64)", "evaluations": ev, "distinct_nontrivial": len(seen),
             "bound": ("tasks 1..4, ranks 1..3, kernel / input batch shapes () (2,) (3,2); grids of 2..15 points per dimension, d <= 3 (4 thorough), ragged; n <= 14 train / 5 test / 3 fantasy points "
                       "(<= 40 thorough), m <= 6 inducing points, 3..6 (<= 20) random features; settings {cholesky, cg} x fast_pred_var x fast_pred_samples x sgpr_diagonal_correction x use_toeplitz; "
